@@ -150,15 +150,24 @@ theorem validate_ok_iff_checks {t : RawTree} :
     t.validate = .ok () ↔
       t.hasHierarchy = true ∧ t.keysMatch = true ∧ t.nodesAreStr = true ∧
       (∃ acc, checkLevelPairs t (levelPairs t.hierarchy) [] = .ok acc) ∧
-      t.repeatsChild = false ∧ hasDup t.allRows = false := by
+      t.repeatsChild = false ∧ t.hierarchy ≠ [] ∧ hasDup t.allRows = false := by
+  have hl : t.leafLevel = none ↔ t.hierarchy = [] := by simp [leafLevel]
   unfold validate validateWith
-  cases t.hasHierarchy <;> cases t.keysMatch <;> cases t.nodesAreStr <;>
-    cases checkLevelPairs t (levelPairs t.hierarchy) [] <;>
-    cases t.repeatsChild <;> cases hasDup t.allRows <;> simp
+  cases hll : t.leafLevel with
+  | none =>
+    have := hl.1 hll
+    cases t.hasHierarchy <;> cases t.keysMatch <;> cases t.nodesAreStr <;>
+      cases checkLevelPairs t (levelPairs t.hierarchy) [] <;>
+      cases t.repeatsChild <;> simp [this]
+  | some l =>
+    have : t.hierarchy ≠ [] := fun h => by rw [hl.2 h] at hll; cases hll
+    cases t.hasHierarchy <;> cases t.keysMatch <;> cases t.nodesAreStr <;>
+      cases checkLevelPairs t (levelPairs t.hierarchy) [] <;>
+      cases t.repeatsChild <;> cases hasDup t.allRows <;> simp [this]
 
 /-- soundness: everything the validator accepts is a strict tree -/
 theorem strict_of_validate {t : RawTree} (h : t.validate = .ok ()) : Strict t := by
-  obtain ⟨hh, hk, hs, ⟨acc, hc⟩, hr, hd⟩ := validate_ok_iff_checks.1 h
+  obtain ⟨hh, hk, hs, ⟨acc, hc⟩, hr, _, hd⟩ := validate_ok_iff_checks.1 h
   have hk := keysMatch_iff.1 hk
   have hp := checkLevelPairs_sound _ _ _ hc
   exact
@@ -171,6 +180,17 @@ theorem strict_of_validate {t : RawTree} (h : t.validate = .ok ()) : Strict t :=
       oneParent := fun pl cl hm => (hp pl cl hm).2.2
       childNodup := repeatsChild_false_iff.1 hr
       rowsNodup := (hasDup_false_iff_nodup _).1 hd }
+
+/-- an accepted tree has at least one level (`hierarchy[-1]` is evaluated) -/
+theorem hierarchy_ne_nil_of_validate {t : RawTree} (h : t.validate = .ok ()) :
+    t.hierarchy ≠ [] :=
+  (validate_ok_iff_checks.1 h).2.2.2.2.2.1
+
+theorem rejects_empty_hierarchy {t : RawTree} (h : t.hierarchy = []) :
+    ∃ e, t.validate = .error e := by
+  cases hv : t.validate with
+  | error e => exact ⟨e, rfl⟩
+  | ok u => cases u; exact absurd h (hierarchy_ne_nil_of_validate hv)
 
 theorem validate_error_of_not_strict {t : RawTree} (h : ¬ Strict t) :
     ∃ e, t.validate = .error e := by
@@ -338,18 +358,19 @@ theorem checkLevelPairs_complete {t : RawTree} :
     exact ⟨acc', by simp only [checkLevelPairs, hpair]; exact hok'⟩
 
 /-- completeness: every strict tree over a hierarchy of distinct level names is accepted -/
-theorem validate_of_strict {t : RawTree} (hn : t.hierarchy.Nodup) (h : Strict t) :
-    t.validate = .ok () := by
+theorem validate_of_strict {t : RawTree} (hn : t.hierarchy.Nodup) (hne : t.hierarchy ≠ [])
+    (h : Strict t) : t.validate = .ok () := by
   apply validate_ok_iff_checks.2
   refine ⟨h.hasH, keysMatch_iff.2 ⟨h.keysSub, h.hierSub⟩, h.str, ?_,
-    repeatsChild_false_iff.2 h.childNodup, (hasDup_false_iff_nodup _).2 h.rowsNodup⟩
+    repeatsChild_false_iff.2 h.childNodup, hne, (hasDup_false_iff_nodup _).2 h.rowsNodup⟩
   exact checkLevelPairs_complete _ [] (levelPairs_snd_nodup hn)
     (fun pl cl hm => ⟨h.childExists pl cl hm, h.hasParent pl cl hm, h.oneParent pl cl hm⟩)
     (by intro k v hlk; simp [List.lookup] at hlk)
 
 theorem validate_ok_iff {t : RawTree} (hn : t.hierarchy.Nodup) :
-    t.validate = .ok () ↔ Strict t :=
-  ⟨strict_of_validate, validate_of_strict hn⟩
+    t.validate = .ok () ↔ Strict t ∧ t.hierarchy ≠ [] :=
+  ⟨fun h => ⟨strict_of_validate h, hierarchy_ne_nil_of_validate h⟩,
+   fun h => validate_of_strict hn h.2 h.1⟩
 
 /-! ### one corollary per remaining corruption class (existence of an error) -/
 
